@@ -99,7 +99,8 @@ def arityFits (fo : Option FnObj) (n : Nat) : Bool :=
   | none => true
 
 /-- a call whose head is a symbol: one ordinary call, or — in tail position, under the function's
-own name, with a fitting number of operands — the operands inline and the tail sequence -/
+own name, with a fitting number of operands — the guard (fix C09-02), the operands inline, the
+tail sequence, and behind the jump the ordinary call the guard skips to -/
 theorem compile_call_sym_inv (isFn : Nat → Bool) (c : Ctx) (hd : String) (args : List Expr) (gs : GS)
     (code : List Instr) (t : Bool) (gs' : GS)
     (h : compile isFn c (.call (.sym hd) args) gs = Except.ok ((code, t), gs')) :
@@ -108,7 +109,8 @@ theorem compile_call_sym_inv (isFn : Nat → Bool) (c : Ctx) (hd : String) (args
       arityFits ((c.known.lookup hd).bind fun t => gs.fns[t]?) args.length = true ∧
       ∃ argcode, compileCallArgs isFn { c with tail := false } ((c.known.lookup hd).bind fun t => gs.fns[t]?) 0 args gs
           = Except.ok (argcode, gs') ∧
-        code = argcode ++ [Instr.prepareCall hd args.length] ++ List.replicate (c.scopes + 1) Instr.removeScope ++ [Instr.goto 0]) := by
+        code = [Instr.tailGuard hd (argcode.length + c.scopes + 4)] ++ argcode ++ [Instr.prepareCall hd args.length] ++
+          List.replicate (c.scopes + 1) Instr.removeScope ++ [Instr.goto 0, Instr.callExpr (.sym hd) args]) := by
   simp only [compile] at h
   by_cases hself : (c.tail && hd == c.funcname) = true
   · simp only [hself, ↓reduceIte, bind_ok, get_ok] at h
@@ -210,17 +212,20 @@ theorem balL_compile (isFn : Nat → Bool) : ∀ (e : Expr) (c : Ctx) (gs : GS) 
       · -- the self tail call
         obtain ⟨hids, hres⟩ := balL_compileCallArgs isFn args { c with tail := false }
           ((c.known.lookup hd).bind (fun t => gs.fns[t]?)) 0 gs argcode gs' hok.2 hgs rfl hargs
-        have hplain : ilids ([Instr.prepareCall hd args.length] ++ List.replicate (c.scopes + 1) Instr.removeScope ++ [Instr.goto 0]) = [] := by
-          have hr : ∀ n, ilids (List.replicate n Instr.removeScope) = [] := by
-            intro n
-            induction n with
-            | zero => rfl
-            | succ n ih => rw [List.replicate_succ, ilids_plain_cons _ _ rfl]; exact ih
-          simp only [ilids_append, hr, ilids_single _ (rfl : ilid? (Instr.prepareCall hd args.length) = none),
-            ilids_single _ (rfl : ilid? (Instr.goto 0) = none), List.append_nil]
+        have hr : ∀ n, ilids (List.replicate n Instr.removeScope) = [] := by
+          intro n
+          induction n with
+          | zero => rfl
+          | succ n ih => rw [List.replicate_succ, ilids_plain_cons _ _ rfl]; exact ih
+        have hplain : ilids ([Instr.prepareCall hd args.length] ++ List.replicate (c.scopes + 1) Instr.removeScope ++
+            [Instr.goto 0, Instr.callExpr (.sym hd) args]) = [] := by
+          have h2 : ilids [Instr.goto 0, Instr.callExpr (.sym hd) args] = [] := rfl
+          simp only [ilids_append, hr, ilids_single _ (rfl : ilid? (Instr.prepareCall hd args.length) = none), h2,
+            List.append_nil]
         refine ⟨fun h => h, ?_, hres.mono (fun T _ hf d Γ σ hinv => ?_)⟩
-        · have := (idsIn_plain hids hplain).1
-          simpa [List.append_assoc] using this
+        · have h1 := (idsIn_plain hids hplain).1
+          have h2 := (idsIn_plain h1 (rfl : ilids [Instr.tailGuard hd (argcode.length + c.scopes + 4)] = [])).2
+          simpa [List.append_assoc] using h2
         · obtain ⟨hfr, hb, hd1, hso⟩ := hinv.tail htail
           rcases hso with hanon | ⟨t0, fo, hl, hget, hside⟩
           · rw [← hname, hok.1] at hanon; cases hanon
@@ -232,9 +237,18 @@ theorem balL_compile (isFn : Nat → Bool) : ∀ (e : Expr) (c : Ctx) (gs : GS) 
               | true => rw [hv] at harity; simpa using harity
               | false => rw [hv] at harity; simpa using harity
             have hk : σ.k = c.scopes + 1 := by have := hinv.k; omega
-            have tc := efrag_tailcall Γ T hd args.length c.scopes σ fo hinv.wf hfr hb hk hside har
-            have := sfrag_seq_e a tc
-            simpa [B, List.append_assoc] using this
+            -- operands and tail sequence: from σ, nothing falls through; annotated σ behind the jump
+            have tc := efrag_tailcall Γ T hd args.length c.scopes σ fo hinv.wf hfr hb hk hside har σ hinv.wf
+            have x := sfrag_seq_e a tc
+            have hlen : ((B T argcode ++ B T ([Instr.prepareCall hd args.length] ++
+                List.replicate (c.scopes + 1) Instr.removeScope ++ [Instr.goto 0])).length : Int)
+                + 1 = ((argcode.length + c.scopes + 4 : Nat) : Int) := by
+              simp only [List.length_append, B_length, List.length_cons, List.length_nil, List.length_replicate]
+              push_cast; omega
+            have g := efrag_guard_skip (Γ := Γ) ((argcode.length + c.scopes + 4 : Nat) : Int) hlen.symm hinv.wf x
+            have call := efrag_push Γ (.callExpr args.length) σ hinv.wf rfl
+            have := efrag_seq g call
+            simpa [B, toB, List.append_assoc] using this
     · exact ⟨fun h => h, res_atom c gs _ rfl (fun _ => rfl)⟩
   | .begin_ es, c, gs, code, t, gs', hok, hgs, h => by
     simp only [okL] at hok
